@@ -198,4 +198,7 @@ def run(repo='/repo', tier='quick'):
         res.check(ok, 'C16.d', ff.name + ':sets-flag-only-for-refused-CONNECT', 'set only for a CONNECT answered with neither 2xx nor 407',
                   'the yield-at-end flag is set outside the refused-CONNECT arm', x['loc'])
     res.assumptions.append('"no request byte skipped or parsed twice" is decided only as: the suspension/probe paths do not move the cursor; values are not tracked')
+    if tier == 'thorough':
+        from .. import typestate
+        typestate.check_sticky(db, res, 'C16.f')
     return res
